@@ -356,25 +356,40 @@ def build(vd):
         objs = [k.obj for k in kids]
         return Node(t, vd, objs if t == "list" else tuple(objs), kids)
     if t == "set":
-        s, kids = set(), []
+        # elements are distinct under Python equality (1, 1.0 and True are one element) AND under this check's
+        # own equivalence (an aware and a naive datetime denoting the same UTC instant are one element)
+        s, kids, seen = set(), [], set()
         for x in vd["v"]:
             k = build(x)
-            if k.obj not in s:          # Python's own set semantics: 1, 1.0 and True are one element
+            i = ident(k)
+            if i not in seen:
+                seen.add(i)
                 s.add(k.obj)
                 kids.append(k)
         return Node(t, vd, s, kids)
     if t in ("map", "dict"):
-        d, kids = {}, {}
+        d, kids, first = {}, {}, {}
         for kx, vx in vd["v"]:
             kn = build(kx) if t == "map" else Node("text", {"t": "text", "v": kx}, kx)
             vn = build(vx)
-            if kn.obj in d:
-                kids[kn.obj] = (kids[kn.obj][0], vn)    # dict keeps the first key object, the last value
+            i = ident(kn)
+            if i in first:
+                kn = first[i]                           # dict keeps the first key object, the last value
             else:
-                kids[kn.obj] = (kn, vn)
+                first[i] = kn
+            kids[i] = (kn, vn)
             d[kn.obj] = vn.obj
-        return Node(t, vd, d, [kids[k] for k in d])
+        return Node(t, vd, d, list(kids.values()))
     raise ValueError("unknown value description %r" % (vd,))
+
+
+def ident(node):
+    """hashable identity of a value in a hashed position under the equivalence this check judges by"""
+    if node.kind == "instant":
+        return ("instant", node.vd["us"])
+    if node.kind == "tuple":
+        return ("tuple",) + tuple(ident(k) for k in node.kids)
+    return node.obj
 
 
 def leaves(node, out=None):
